@@ -75,4 +75,29 @@ theorem pin_txt_key : Gen.Name.src_txt_key = "key_sep_value[0]" := by decide
 theorem pin_txt_first_wins : Gen.Name.src_txt_first_wins = "key not in properties" := by decide
 theorem pin_txt_stored : Gen.Name.src_txt_stored = "key_sep_value[2] or None" := by decide
 
+/-! second review round: the statements that had no pin, and one *statement census* per function (number of statements of
+each kind, every assignment target in source order) so that an **added** statement — a new `if … raise`, a `break`, a second
+assignment — breaks a lemma too.  (Text pins: they locate an edit; what the edit means is for the correspondence/oracle.) -/
+
+theorem pin_inst_present : Gen.Name.src_inst_present = "remaining" := by decide
+theorem pin_txt_dict_iter : Gen.Name.src_txt_dict_iter = "properties.items()" := by decide
+theorem pin_txt_key_encode : Gen.Name.src_txt_key_encode = "key.encode('utf-8')" := by decide
+theorem pin_txt_record : Gen.Name.src_txt_record = "key" := by decide
+theorem pin_txt_record_value : Gen.Name.src_txt_record_value = "b'=' + value" := by decide
+theorem pin_txt_append : Gen.Name.src_txt_append = "record" := by decide
+theorem pin_txt_items_iter : Gen.Name.src_txt_items_iter = "list_" := by decide
+theorem pin_txt_alias : Gen.Name.src_txt_alias = "properties" := by decide
+theorem pin_txt_text_set : Gen.Name.src_txt_text_set = "result" := by decide
+theorem pin_txt_text : Gen.Name.src_txt_text = "self.text" := by decide
+theorem pin_txt_end : Gen.Name.src_txt_end = "len(text)" := by decide
+theorem pin_txt_length : Gen.Name.src_txt_length = "text[index]" := by decide
+theorem pin_txt_index_step1 : Gen.Name.src_txt_index_step1 = "1" := by decide
+theorem pin_txt_index_step2 : Gen.Name.src_txt_index_step2 = "length" := by decide
+theorem pin_census_name : Gen.Name.src_census_name =
+    "Assign:12 Expr:1 If:20 Raise:16 Return:1 Try:1 | remaining trailer has_protocol remaining trailer has_protocol service_name test_service_name allowed_characters_re service_name remaining length" := rfl
+theorem pin_census_set_properties : Gen.Name.src_census_set_properties =
+    "AnnAssign:1 Assign:11 AugAssign:1 Expr:1 For:2 If:5 | list_ properties_contain_str result key properties_contain_str record value properties_contain_str record+ result self._properties self._properties self.text" := rfl
+theorem pin_census_unpack : Gen.Name.src_census_unpack =
+    "AnnAssign:1 Assign:10 AugAssign:2 If:2 Return:1 While:1 | text end self._properties index properties length index+ key_value key_sep_value key properties[key] index+ self._properties" := rfl
+
 end Zc.Name.GenFacts
